@@ -781,7 +781,7 @@ func c05(r *vkit.Run) {
 	}
 	waitSequential := c05Sequential(st, c05Probes())
 
-	perCell := r.N(4, 60)
+	perCell := r.N(4, 40)
 	ops := r.N(1500, 3000)
 	idx := 0
 	for _, fam := range []string{"gslb", "rr", "rr-simple"} {
